@@ -7,6 +7,7 @@ import (
 	"io"
 	"net/http"
 	"os"
+	"reflect"
 	"runtime"
 	"strings"
 	"testing"
@@ -111,8 +112,33 @@ func c19Value(name string) any {
 		return http.ErrAbortHandler
 	case "wrapped-abort":
 		return c19Wrapped
+	case "slice": // values of types that cannot be compared or used as map keys
+		return c19Slice
+	case "map":
+		return c19Map
+	case "struct-slice":
+		return c19Unhashable{N: 5, S: c19Slice}
 	}
 	return nil
+}
+
+type c19Unhashable struct {
+	N int
+	S []string
+}
+
+var c19Slice = []string{"boom", "slice"}
+var c19Map = map[string]int{"boom": 1}
+
+// c19SameValue: identity for comparable values, deep equality for the others (== would panic).
+func c19SameValue(r, want any) bool {
+	if want != nil && !reflect.TypeOf(want).Comparable() {
+		return reflect.DeepEqual(r, want)
+	}
+	if r != nil && !reflect.TypeOf(r).Comparable() {
+		return false
+	}
+	return r == want
 }
 
 type passI struct{ n *int }
@@ -296,7 +322,7 @@ func c19Check(c *ev.Collector, k c19Case) {
 		} else {
 			r := got.Recovered[0]
 			want := c19Value(k.Value)
-			okValue := r == want
+			okValue := c19SameValue(r, want)
 			if k.Value == "nil" {
 				_, isNilErr := r.(*runtime.PanicNilError)
 				if k.PanicNil {
@@ -363,7 +389,7 @@ func c19Check(c *ev.Collector, k c19Case) {
 }
 
 func c19Cases(thorough bool) []c19Case {
-	values := []string{"nil", "error", "string", "struct", "pointer", "abort", "wrapped-abort", "none", "none-err", "eof", "wrapped-eof"}
+	values := []string{"nil", "error", "string", "struct", "pointer", "abort", "wrapped-abort", "none", "none-err", "eof", "wrapped-eof", "slice", "map", "struct-slice"}
 	var out []c19Case
 	for _, p := range AllProtos {
 		for _, kind := range AllKinds {
@@ -587,7 +613,7 @@ func c19AfterCtxEnd(t *testing.T, c *ev.Collector) {
 func TestC19(t *testing.T) {
 	c := ev.New("C19")
 	defer func() { _ = c.Finish() }()
-	c.SetRule("configuration x program enumeration on real handlers: panic value {nil, error, string, struct, pointer, http.ErrAbortHandler, error wrapping the sentinel, none, none but the handler returns an error} x {unary, client, server, bidi} x {connect, grpc, grpcweb} x panic point {before anything, after the first send, after the last send} x WithRecover preceded/followed by 0..2 other interceptors x GODEBUG panicnil {0,1} x recovery-function result {coded error, uncoded error, error wrapping a coded one, uncoded error wrapping context.DeadlineExceeded, coded error with two-valued metadata}; oracle: recovery function called exactly once with the recovered value, client receives exactly its error (after the messages already sent; differential: identical observation to a handler that returns that error at the same point, plus explicit expected code/message), the abort sentinel is re-raised out of ServeHTTP with zero recovery calls, non-panicking calls equal a handler built without WithRecover; non-trivial = a panic is raised")
+	c.SetRule("configuration x program enumeration on real handlers: panic value {nil, error, string, struct, pointer, http.ErrAbortHandler, error wrapping the sentinel, io.EOF, slice, map, struct holding a slice (not comparable, not hashable), none, none but the handler returns an error} x {unary, client, server, bidi} x {connect, grpc, grpcweb} x panic point {before anything, after the first send, after the last send} x WithRecover preceded/followed by 0..2 other interceptors x GODEBUG panicnil {0,1} x recovery-function result {coded error, uncoded error, error wrapping a coded one, uncoded error wrapping context.DeadlineExceeded, coded error with two-valued metadata}; oracle: recovery function called exactly once with the recovered value, client receives exactly its error (after the messages already sent; differential: identical observation to a handler that returns that error at the same point, plus explicit expected code/message), the abort sentinel is re-raised out of ServeHTTP with zero recovery calls, non-panicking calls equal a handler built without WithRecover; non-trivial = a panic is raised")
 	c.Assume("memhttp reports the value that escapes ServeHTTP like net/http's server would see it")
 	if ev.ReplayFile() != "" {
 		var k c19Case
